@@ -1,6 +1,9 @@
 ------------------------ MODULE ProxyMsgLimit_Trace ------------------------
 (* Trace validation for C07.  Every line is one exchange observed on the real code: the limit       *)
-(* settings (bytes), the body as announced and as really sent, and what client and backend saw.     *)
+(* settings (bytes), the body as announced and as really sent (w.comp: the proxy compresses the     *)
+(* response), and what client and backend saw.  The exchanges of one sequence (k = 1, 2, ... on the  *)
+(* same mux and proxy instance, route cache on or off) are separate lines: the contract judges each *)
+(* request by itself.                                                                                *)
 (* TLC evaluates the contract of ProxyMsgDefs Part 4 on it, with the real default interval          *)
 (* [4 000 000, 4 194 304]; prints <<"VERIF_CASE", id, {violated}, {drifted fields}>> like            *)
 (* ProxyMsg_Trace.                                                                                   *)
@@ -16,7 +19,11 @@ Viol(e) == IF e.dir = "req"
 
 (* a streamed request whose client stops early: 499 or 503, backend contacted or not - a race *)
 Racy(e) == e.exp.status = 499
-Drift(e) == IF Racy(e) THEN {} ELSE
+(* a compressed response whose size is within the gzip framing of the limit: the outcome depends on the
+   real size of the gzip framing, which the model abstracts (the contract does not judge it either) *)
+GzZone(e) == /\ e.dir = "resp" /\ e.w.comp /\ ~Streams(e.inner, e.outer)
+             /\ Announced(e.w) + GzMax(RealDefault, Announced(e.w)) > EffLo(e.inner, e.outer, RealDefault)
+Drift(e) == IF Racy(e) \/ GzZone(e) THEN {} ELSE
             (IF e.o.status = e.exp.status THEN {} ELSE {"status"}) \cup
             (IF e.dir = "req" /\ e.o.forwarded # e.exp.forwarded THEN {"forwarded"} ELSE {}) \cup
             (IF e.o.intact = e.exp.intact THEN {} ELSE {"intact"}) \cup
